@@ -138,7 +138,7 @@ class FoldUnit:
                     ins.append('  %s.m%d = mul i64 %s, %d' % (hn, q, v, sc))
                     ins.append('  %s.s%d = add i64 %s, %s.m%d' % (hn, q, cur, hn, q))
                     cur = '%s.s%d' % (hn, q)
-                ins += ['  %s = icmp ugt i64 %s, %d' % (hn, cur, h['room']),
+                ins += ['  %s = icmp ugt i64 %s, %s' % (hn, cur, h['roomv'] if h.get('roomv') else '%d' % h['room']),
                         '  call void @llvm.assume(i1 %s)' % hn,
                         '  call void @verif.site()']
                 lines[k:k] = ins
